@@ -115,7 +115,7 @@ def run(ctx):
     sends = [n for n in cq.nodes if any(prog.resolve_call(sq, c) is sr for c in n.calls())]
     need(sends, "queue sender does not call the write function")
     lq = [n for n in cq.nodes if n.kind == "for"]
-    vq = (table_loop(ctx, sq, lq[0]) or {}).get("val") or (unparse(lq[0].stmt.target) if lq else "?")
+    vq = ((table_loop(ctx, sq, lq[0]) or {}).get("val") or unparse(lq[0].stmt.target)) if lq else "?"
     r.check(all(("%s.sent is None" % vq, True) in fq[n.id] for n in sends), "%s#only-unsent" % sq.qname,
             "entries already written on this connection are written again", where(sq, sends[0].stmt),
             "a request is sent twice on one connection")
